@@ -146,15 +146,19 @@ theorem relDiffOld_eq (a b : ℚ) (h : a ≠ 0 ∨ b ≠ 0) : relDiffOld a b = s
 (`expo10_spec`); `roundExact N d` is its value in closed form (`round_eq_roundExact`). -/
 
 /-- `Round(N,d)` is defined for `d ≤ 7` and equals the closed form -/
-theorem round_defined (N : ℚ) (d : ℕ) (hd : d ≤ 7) : round N d = .ok (roundExact N d) :=
-  round_eq_roundExact N d hd
+theorem round_defined (N : ℚ) (d : ℕ) (hd1 : 1 ≤ d) (hd : d ≤ 7) : round N d = .ok (roundExact N d) :=
+  round_eq_roundExact N d hd1 hd
+
+/-- zero significant digits → diagnostic (f9320d5), whatever the argument -/
+theorem round_zero_digits (N : ℚ) : round N 0 = .error .diag := by
+  unfold round roundSigG; simp
 
 /-- **digits > 7 → diagnostic** (any argument, zero included, any exponent); `Round(0,d) = 0` for `d ≤ 7` -/
 theorem round_digits_guard (N : ℚ) (d : ℕ) (e : Int) :
     (7 < d → roundSig N d e = .error .diag) ∧ (d ≤ 7 → roundSig 0 d e = .ok 0) :=
   ⟨fun hd => roundSig_guard N d e hd, fun hd => round_zero d e hd⟩
 
-/-- the guard proposed for `digits = 0` changes nothing for the stated digit counts `1..7` (nor for `> 7`),
+/-- the guard for `digits = 0` (f9320d5) changes nothing for the stated digit counts `1..7` (nor for `> 7`),
     and rejects zero digits -/
 theorem roundSigG_spec (N : ℚ) (d : ℕ) (e : Int) :
     (1 ≤ d → roundSigG N d e = roundSig N d e) ∧ roundSigG N 0 e = .error .diag := by
@@ -273,13 +277,37 @@ theorem dawson_small (exp : ℚ → ℚ) (x : ℚ) (h : |x| < 2 / 10) :
   ring
 
 theorem invErf_guard (p : ℚ) :
-    (1 ≤ |p| → 1 / 10 ^ 16 ≤ |p - 1| → invErfCase p = .diag) ∧
-    (|p| < 1 → 1 / 10 ^ 16 ≤ |p - 1| → invErfCase p = .root) := by
+    (1 ≤ |p| → 1 / 10 ^ 16 ≤ |p - 1| → 1 / 10 ^ 16 ≤ |p + 1| → invErfCase p = .diag) ∧
+    (|p| < 1 → 1 / 10 ^ 16 ≤ |p - 1| → 1 / 10 ^ 16 ≤ |p + 1| → invErfCase p = .root) := by
   unfold invErfCase
   simp only [rabs_eq_abs]
   constructor
-  · intro h1 h2; rw [if_neg (by linarith), if_pos h1]
-  · intro h1 h2; rw [if_neg (by linarith), if_neg (by linarith)]
+  · intro h1 h2 h3; rw [if_neg (by linarith), if_neg (by linarith), if_pos h1]
+  · intro h1 h2 h3; rw [if_neg (by linarith), if_neg (by linarith), if_neg (by linarith)]
+
+/-- the window next to the end points is symmetric (e9e1286): the case of `−p` is the mirrored case of `p` -/
+theorem invErf_window_symm (p : ℚ) :
+    (invErfCase p = .ten ↔ invErfCase (-p) = .minusTen) ∧ (invErfCase p = .diag ↔ invErfCase (-p) = .diag) := by
+  unfold invErfCase
+  simp only [rabs_eq_abs]
+  have e1 : |-p - 1| = |p + 1| := by rw [← abs_neg]; congr 1; ring
+  have e2 : |-p + 1| = |p - 1| := by rw [← abs_neg]; congr 1; ring
+  rw [e1, e2, abs_neg]
+  by_cases h1 : |p - 1| < 1 / 10 ^ 16
+  · have h2 : ¬ |p + 1| < 1 / 10 ^ 16 := by
+      intro h2
+      rw [abs_lt] at h1 h2
+      norm_num at h1 h2
+      linarith
+    simp only [if_pos h1, if_neg h2]
+    simp
+  · by_cases h2 : |p + 1| < 1 / 10 ^ 16
+    · simp only [if_neg h1, if_pos h2]
+      simp
+    · simp only [if_neg h1, if_neg h2]
+      by_cases h3 : |p| ≥ 1
+      · simp only [if_pos h3]; simp
+      · simp only [if_neg h3]; simp
 
 /-! ## Vector spherical harmonics: the coefficient tables -/
 
